@@ -825,8 +825,11 @@ def plant_fault(rng, doc, kind):
     if kind == "unknown-property":
         o = rng.choice(objs)
         # (typos are not always ASCII; names are cut and compared bytewise in places)
-        b = Binding((rng.choice(("noSuchProperty", "txet", "colour", "foo_bar", "w\u00efndowTitle", "t\u00ebxt", "\u6807\u9898", "o\u00f1Clicked",
-                                 "on\u00c9dited", "\u00e9", "x\u0301y", "on", "o")),), rng.choice(("1", '"x"', "true")), "fault")
+        # (... and a name may be capitalised like a type name, alone or in every dotted component, without being an attached binding)
+        b = Binding(rng.choice((("noSuchProperty",), ("txet",), ("colour",), ("foo_bar",), ("w\u00efndowTitle",), ("t\u00ebxt",), ("\u6807\u9898",),
+                                ("o\u00f1Clicked",), ("on\u00c9dited",), ("\u00e9",), ("x\u0301y",), ("on",), ("o",),
+                                ("Text",), ("ToolTip",), ("Foo", "Bar"), ("NoSuchProperty",), ("\u00c9tat",))),
+                    rng.choice(("1", '"x"', "true")), "fault")
     elif kind == "ill-typed":
         cands = [(o, n) for o in objs for n in ("enabled", "toolTip", "windowTitle", "minimumWidth")
                  if o.kind in ("widget", "menu") and not _has_binding(o, n)]
